@@ -18,8 +18,9 @@ Case = {"cfg": "graph"|"ds"|"cg"|"ro", "method": "GET"|"POST"|"POST_FORM", "fmt"
 Terms are small integers (vocabulary below); graph names 90…; 0 = the default graph / "no graph named";
 None in a pattern = wildcard; `remove` with g None = no context given (every graph).
 
-Observation per op: "<result> ; <endpoint quads> | <endpoint graph names>" — the API result and what the
-BACKING dataset really contains afterwards; compared with the Lean model (lean/RV/C20).
+Observation per op: "<result> ; <endpoint quads> | <endpoint graph names> ; SENT <requests>" — the API result, what the
+BACKING dataset really contains afterwards, and every request text the endpoint received for the op DECODED by the
+Lean reader (lean/RV/C20/Text.lean); compared with the Lean model (state machine + predicted requests).
 Property oracle (independent of Lean), see `run_impl`: a local mirror driven by the same calls must equal
 the backing dataset at every commit boundary (autocommit: after every write), uncommitted writes are
 invisible until commit / the next non-dirty read, rollback discards exactly them, every read returns
@@ -63,7 +64,7 @@ ASSUMPTIONS = [
     "object of ANOTHER store as fourth element is by design copied into the dataset and is not driven",
 ]
 TRUSTED = ["harness/c20.py generators, canonicalisation and the mapping of Graph/Dataset/ConjunctiveGraph calls to "
-           "store-level contexts", "harness/c20_endpoint.py (loop-back endpoint)", "lean/RV/C20/Drive.lean line protocol",
+           "store-level contexts", "the reader of lean/RV/C20/Text.lean as the meaning of the SPARQL fragment the store emits", "harness/c20_endpoint.py (loop-back endpoint)", "lean/RV/C20/Drive.lean line protocol",
            "HTTP transport itself (sockets, status codes, time-outs) is not modelled"]
 
 E = "http://e/"
@@ -439,7 +440,7 @@ def _blank_user_queries(op, sent):
 def select_model_obs(case, out):
     res = []
     for op, (o, e, sent, _txt) in zip(case["ops"], _model_blocks(case, out)):
-        res.append(f"{o} ; {e} ; SENT {_blank_user_queries(op, sent)} ; TEXT ok")
+        res.append(f"{o} ; {e} ; SENT {_blank_user_queries(op, sent)}")
     return res
 
 
@@ -929,7 +930,7 @@ def run_impl(case):
     sess = driver_session(case, captured)
     for k_i, op in enumerate(case["ops"]):
         if sess is None:
-            obs[k_i] += " ; SENT no-driver ; TEXT no-driver"
+            obs[k_i] += " ; SENT no-driver"
             continue
         dec, mtxt = sess[k_i]
         reqs = captured[k_i]
@@ -937,18 +938,15 @@ def run_impl(case):
             dec = ["Q?" if kind == "q" else d for d, (kind, _g, _t) in zip(dec, reqs)]
         sent = " | ".join(dec) if dec else "-"
         mt = [] if mtxt == "none" else mtxt.split(" ")
-        verdict = "ok"
-        if len(mt) != len(reqs):
-            verdict = f"model predicts {len(mt)} requests, {len(reqs)} were sent"
-        else:
+        # character-for-character comparison with the Lean writers: a statistic, NOT part of obs — another
+        # spelling that the reader decodes to the same operation is a harmless refactoring
+        if len(mt) == len(reqs):
             for m, (kind, _g, text) in zip(mt, reqs):
                 if m != "-" and not (op[0] == "query" and kind == "q"):
-                    bump("texts_compared")
-                    if m != _cps(text):
-                        verdict = f"request text differs from the Lean writer: sent {text[:80]!r}"
-                        break
+                    bump("texts_compared_with_lean_writer")
+                    bump("texts_identical_to_lean_writer", int(m == _cps(text)))
         bump("requests_decoded", len(reqs))
-        obs[k_i] += f" ; SENT {sent} ; TEXT {verdict}"
+        obs[k_i] += f" ; SENT {sent}"
 
     return {"obs": obs, "viol": viol, "nontrivial": bool(reached and answered),
             "key": repr((cfg, case["method"], case["fmt"], case["autocommit"], case["dirty"], case["hook"],
